@@ -333,6 +333,20 @@ def drums(ctx):
   ok = len(r) == 1 and norm_text(r[0].value).replace(' ', '') in ('sum((2**iforiindrum_type_indices))', 'sum(2**iforiindrum_type_indices)') or \
       (len(r) == 1 and isinstance(r[0].value, ast.Call) and dotted(r[0].value.func) == 'sum' and '2 **' in norm_text(r[0].value))
   ctx.ob('INV/drums-encode', enc, r[0] if r else enc.node, ok, 'label = sum of 2**type over the set of drum types present' if ok else 'encode_event is not the bit mask of the drum types present')
+  # several pitches map to one drum type, so the types must be collected in a set before 2**type is summed (a repeated type would carry into the next bit)
+  src = None
+  if len(r) == 1 and isinstance(r[0].value, ast.Call) and r[0].value.args and isinstance(r[0].value.args[0], (ast.GeneratorExp, ast.ListComp, ast.SetComp)):
+    src = r[0].value.args[0].generators[0].iter
+  isset = False
+  if isinstance(src, ast.Name):
+    ds = [s_ for s_ in U.walk_stmts(enc.node) if isinstance(s_, ast.Assign) and any(isinstance(t, ast.Name) and t.id == src.id for t in s_.targets)]
+    isset = len(ds) == 1 and (isinstance(ds[0].value, (ast.Set, ast.SetComp)) or (isinstance(ds[0].value, ast.Call) and dotted(ds[0].value.func) in ('set', 'frozenset')))
+  elif isinstance(src, ast.Call) and dotted(src.func) in ('set', 'frozenset'):
+    isset = True
+  elif src is not None and len(r) == 1 and isinstance(r[0].value.args[0], ast.SetComp):
+    isset = False   # a set of 2**i values would also do, but then the summed expression is the set itself
+  ctx.ob('INV/drums-type-set', enc, r[0] if r else enc.node, isset, 'the drum types are de-duplicated (a set) before their bits are summed' if isset else
+         'the drum types whose bits are summed are not collected in a set: two pitches of one drum type add 2**type twice and carry into another bit', construct='sum(2**i) over a set of types')
   txt = norm_text(dec.node)
   ok = 'reversed(str(bin(' in txt and "== '1'" in txt and 'self._drum_map[' in txt and '[0]' in txt
   ctx.ob('INV/drums-decode', dec, dec.node, ok, 'decode reads the bits from the least significant end and takes the first pitch of each type' if ok else
@@ -382,6 +396,7 @@ def velocity(ctx):
 
 
 MUTANTS = [
+    Mutant('seed C09_d: drum types collected in a list', DE, "    drum_type_indices = set()", "    drum_type_indices = []", rule='INV/drums-type-set', also=[(DE, "        drum_type_indices.add(self._inverse_drum_map[pitch])", "        drum_type_indices.append(self._inverse_drum_map[pitch])")]),
     Mutant('melody decoder guard off by one', ME, "    if index < NUM_SPECIAL_MELODY_EVENTS:\n      return index - NUM_SPECIAL_MELODY_EVENTS", "    if index < NUM_SPECIAL_MELODY_EVENTS + 1:\n      return index - NUM_SPECIAL_MELODY_EVENTS", rule='INV/melody-guard'),
     Mutant('melody decode forgets min_note', ME, "    return index - NUM_SPECIAL_MELODY_EVENTS + self._min_note", "    return index - NUM_SPECIAL_MELODY_EVENTS", rule='INV/melody'),
     Mutant('melody num_classes one short', ME, "    return self._max_note - self._min_note + NUM_SPECIAL_MELODY_EVENTS", "    return self._max_note - self._min_note + NUM_SPECIAL_MELODY_EVENTS - 1", rule='WIDTH/melody'),
